@@ -9,7 +9,7 @@ from __future__ import annotations
 
 import itertools
 
-from ..loader import AnalysisError, Tree
+from ..loader import AnalysisError, Tree, unparse
 from ..poly import RF, D, equal, sym
 from ..report import Check
 from ..terms import PW, Opaque, Rel, TermEval
@@ -68,6 +68,30 @@ def check_kallen_paths(ctx: Check, tree: Tree) -> None:
                     None if ok else {"returned": repr(v)[:200], "expected": repr(r)[:200]})
 
 
+def check_unfolding_route(ctx: Check, tree: Tree) -> None:
+    """R-SIMULSUBS / R-OWNDOIT: Kibble and Kallen are unfolded by the decorator's doit() = evaluate()
+    on the instance's own arguments.  A hand-written doit() that inserts the arguments into a template
+    must do so simultaneously: `template.subs({sigma1: a1, ..., m3: a7})` applies the pairs one after
+    the other, and the arguments of a relabelled call (is_within_phasespace(s2, s3, m0, m2, m3, m1)) are
+    themselves named like template symbols."""
+    from ..rules import sequential_subs_sites
+
+    sites = sequential_subs_sites(tree, (MOD,))
+    bad = [s_ for s_ in sites if s_["arbitrary"]]
+    for s_ in bad:
+        fn = s_["fn"]
+        ctx.violation("R-SIMULSUBS", f"{fn.qual}::sequential-subs", tree.loc(s_["node"]),
+                      f"{fn.qual}: `{unparse(s_['node'])[:70]}` substitutes several symbols by arbitrary argument expressions one after the other",
+                      "an argument that is (or contains) a symbol named like a later key is substituted again: Kibble(s2, s3, s1, m0, m2, m3, m1) collapses its masses; use xreplace / simultaneous=True / Dummy template symbols")
+    if not bad:
+        ctx.ok("R-SIMULSUBS", "src/ampform/kinematics/phasespace.py", f"{len(sites)} multi-pair subs() call(s) with arbitrary replacement values in the module: none")
+    for name in ("Kibble", "Kallen"):
+        cls = tree.cls(f"{MOD}::{name}")
+        own = [m for m in ("doit", "_eval_evalf", "_eval_subs", "__new__") if m in cls.methods]
+        if own:
+            ctx.advisory("R-OWNDOIT", tree.loc(cls.methods[own[0]].node), f"{name} overrides {own}: its unfolding is no longer the decorator's evaluate()-based doit() (judged by R-SIMULSUBS only)")
+
+
 def run(ctx: Check, tree: Tree) -> None:
     ctx.decided += [
         "R-ARGORDER (shared with C14): Kibble/Kallen unpack self.args positionally; .args are in field-declaration order however the caller spells keyword arguments",
@@ -80,6 +104,7 @@ def run(ctx: Check, tree: Tree) -> None:
         "that Kibble <= 0 characterises the region between the Dalitz-plot limits inside the bounding box (textbook mathematics, trusted)",
         "floating-point evaluation",
     ]
+    ctx.section(check_unfolding_route, ctx, tree)
     D.reset()
     te = TermEval(tree)
     kallen = tree.cls(f"{MOD}::Kallen")
